@@ -333,6 +333,20 @@ t14 :- put_atts(X, colour(red)), ( put_atts(X, -colour(_)), fail ; true ),
        ( term_attributed_variables(X, Vs), Vs == [X], get_atts(X, colour(C)), C == red -> show(ok) ; show(lost) ).
 t15 :- ( put_atts(X, colour(red)), fail ; true ),
        ( term_attributed_variables(X, []) -> show(ok) ; show(still_attributed) ).
+% a key that exists without a backtrackable value (set by bb_put, or a previous bb_b_put undone)
+t17 :- bb_put(k17, kept), ( bb_b_put(k17, temp), fail ; true ), bb_get(k17, V), ( V == kept -> show(ok) ; show(got(V)) ).
+t18 :- ( bb_b_put(k18, 1), fail ; true ), ( bb_b_put(k18, 2), fail ; true ), ( bb_get(k18, V) -> show(still(V)) ; show(ok) ).
+t19 :- bb_put(k19, kept), \\+ ( bb_b_put(k19, temp), fail ), findall(x, bb_b_put(k19, t2), [x]), bb_get(k19, V),
+       ( V == kept -> show(ok) ; show(got(V)) ).
+% a stack variable of an OLDER environment, globalised while a continuation is captured in a newer
+% environment, after a choice point: unbound again after backtracking to that choice point
+nb(_).
+cp(1). cp(2).
+older :- nb(Y), mid0(Y), after0(Y).
+mid0(Y) :- cp(_), inner0(Y).
+inner0(Y) :- bb_get(round0, R), ( R == 1 -> bb_put(round0, 2), shift(ball0), nb(Y) ; true ).
+after0(Y) :- bb_get(round0, 2), length(L, 6), L = [a,b,c,d,e,f], ( var(Y) -> bb_put(res0, ok) ; bb_put(res0, bound(Y)) ).
+t20 :- bb_put(round0, 1), bb_put(res0, none), ( reset(older, B, _), B == ball0, fail ; true ), bb_get(res0, R), show(R).
 t16 :- put_atts(X, colour(red)), put_atts(X, size(3)),
        ( put_atts(X, -colour(_)), put_atts(X, -size(_)), fail ; true ),
        ( get_atts(X, colour(C)), C == red, get_atts(X, size(S)), S == 3 -> show(ok) ; show(lost) ).
@@ -341,7 +355,7 @@ t16 :- put_atts(X, colour(red)), put_atts(X, size(3)),
 
 def replay_backtracking(viol):
     cases = [("t1", "ok"), ("t2", "2"), ("t3", "_-2"), ("t4", "ok"), ("t5", "ok"), ("t6", "ok"),
-             ("t7", "unbound")] + [("t%d" % k, "ok") for k in range(8, 17)]
+             ("t7", "unbound")] + [("t%d" % k, "ok") for k in range(8, 21)]
     # t3 prints an unbound variable name: normalise by checking only that it is unbound
     cases[2] = ("q3(R), ( R = V-2, var(V) -> show(ok) ; show(R) )", "ok")
     return run_cases(BT_PROGRAM, cases, {"model": viol}, "C11", "backtracking")
